@@ -575,8 +575,15 @@ where
                 let s = segs.remove(cur);
                 let st = (s.front, s.back, s.split);
                 let it = s.it;
+                // an iterator that never ends must not hang the check: stop
+                // recording after one item more than the model holds
+                let limit = s.model.len() + 1;
                 let got: Vec<Conv> = guarded!("fold", st, it.fold(Vec::new(), |mut acc, x| {
-                    acc.push(conv(x));
+                    if acc.len() < limit {
+                        acc.push(conv(x));
+                    } else if acc.len() == limit {
+                        panic!("harness: fold visits more items than the model holds (unbounded iterator?)");
+                    }
                     acc
                 }));
                 let mut model = s.model;
@@ -598,7 +605,8 @@ where
                 let s = segs.remove(cur);
                 let st = (s.front, s.back, s.split);
                 let it = s.it;
-                let got: Vec<Conv> = guarded!("next_back", st, it.rev().map(&conv).collect());
+                let limit = s.model.len() + 1;
+                let got: Vec<Conv> = guarded!("next_back", st, it.rev().take(limit).map(&conv).collect());
                 let mut model = s.model;
                 if got.len() != model.len() {
                     let what = if got.len() > model.len() { "extra-item" } else { "missing-item" };
@@ -1103,7 +1111,7 @@ fn main() {
     ck.assume("sub-views are read through Layout::shape() and get(index), which are not under test here (C09 covers them)");
     ck.set_threads(16);
 
-    ck.prop("histories", ck.pick(150_000, 4_000_000), case, oracle);
-    ck.prop("par-smoke", ck.pick(15_000, 300_000), par_case, par_oracle);
+    ck.prop("histories", ck.pick(300_000, 6_000_000), case, oracle);
+    ck.prop("par-smoke", ck.pick(30_000, 400_000), par_case, par_oracle);
     ck.finish();
 }
